@@ -16,6 +16,8 @@ if [ $run_tests = 1 ]; then
   ( cd "$S/repo" && CARGO_TARGET_DIR="$S/target" cargo test --workspace --no-fail-fast --offline 2>&1 | grep -E "^test result|FAILED|failed" | head -8 )
 fi
 export VERIF_REPO="$S/repo" VERIF_OUT="$S/out" VERIF_TARGET="$S/target-sim"
+# sensitivity runs share the machine with other work: do not let the wall-clock budget skip runs
+export VERIF_BUDGET_S="${VERIF_BUDGET_S:-7200}"
 mkdir -p "$S/out/evidence" "$S/out/replays"
 overall=0
 for spec in "$@"; do
@@ -24,6 +26,7 @@ for spec in "$@"; do
   "$VERIF/check" "$c" "$tier" > "$S/out/$c.log" 2>&1; rc=$?
   echo "== $c $tier on mutant: exit $rc ($(( $(date +%s) - start ))s)"
   grep -E "^violation:|^VIOLATION|HARNESS|^KNOWN" "$S/out/$c.log" | cut -c1-330 | head -8
+  grep -E "^(\[hook-off twin\] )?C[0-9]+ (quick|thorough)" "$S/out/$c.log" | cut -c1-250 | tail -3
   [ $rc -ne 0 ] && overall=1
   if [ -n "${MUTANT_KEEP:-}" ]; then mkdir -p "$MUTANT_KEEP"; cp "$S/out/replays/"*-min.json "$S/out/replays/"*.shuttle "$MUTANT_KEEP/" 2>/dev/null; fi
 done
